@@ -232,6 +232,11 @@ def sizeOk (s : Start) (ops : List Op) : Bool :=
   | some h => extBodySize h ≤ 65535 * 4
   | none => false
 
+/-- the element bytes Marshal writes for a block of the given profile (before zero padding); used
+    to state the sharpness witnesses of the acceptance table -/
+def blockOf (profile : UInt16) (es : List Ext) : Res Bytes :=
+  extBodyBytes { extension := true, extProfile := profile, exts := es }
+
 /-- `Inv` with distinct ids (headers that did not come from the wire) -/
 def legalD (h : Header) : Bool := legal h && (h.exts.map (·.id)).Nodup
 
